@@ -432,6 +432,19 @@ def tokenize(run, m, F, E, L):
     return 1
 
 
+SPAN_PRIMS = ('strspn', 'strcspn', 'strpbrk', 'strtok', 'strtok_r', 'strsep', 'strstr', 'strcasestr', 'strchr', 'strrchr', 'strlen',
+              'strcmp', 'strncmp', 'strcasecmp', 'strncasecmp')
+
+
+def nul_blind(run, m, F):
+    """R09.6: the text that is cut / scanned is all size() bytes, embedded NULs included: no split / tokenize / replace member hands the
+    string's own storage to a C primitive that stops at the first NUL (expected count zero; C06's positive control covers the rule's
+    machinery, which is shared)."""
+    from . import c06
+    return c06.nul_blind(run, m, F, only=lambda f: re.match(r'^ST::string::(split|tokenize|replace)\(', f.dem) is not None, rule='R09.6', prims=SPAN_PRIMS,
+                         what='are cut / substituted differently')
+
+
 def check(run):
     m = run.module()
     F = run.facts()
@@ -445,5 +458,6 @@ def check(run):
     run.floor('split overloads', splits(run, m, F, E, L), 3)
     run.floor('replace overloads', replace(run, m, F, E, L), 4)
     tokenize(run, m, F, E, L)
+    run.floor('members scanned for NUL-stopping primitives', nul_blind(run, m, F), 8)
     for o in run.obs[:6]:
         run.sample(dict(rule=o['rule'], subject=o['subject'], case=o['disc'], verdict=o['verdict'], detail=o['detail'][:160]))
